@@ -4,9 +4,9 @@
     Model: Model/Godambe.v (step-size rule, the four Hessian stencils, the gradient stencils, H, J, cU).
     A "quadratic" is [quadm c lin qd]: constant + sum a*p_k + sum a*p_k*p_l, any number of parameters,
     any list of monomials;  [quad_d2], [quad_d1] are its exact second / first partial derivatives. *)
-From Coq Require Import ZArith Reals List Lra Lia Bool Permutation.
+From Coq Require Import ZArith QArith Reals List Lra Lia Bool Permutation.
 From Coquelicot Require Import Coquelicot.
-From Dadi Require Import Base.Num Base.NumR Model.Godambe Proofs.GodambeProofs Proofs.GodambePoisson Proofs.GodambeLnBounds Proofs.GodambeRemainder.
+From Dadi Require Import Base.Num Base.NumR Base.NumQ Model.Godambe Proofs.GodambeProofs Proofs.GodambePoisson Proofs.GodambeLnBounds Proofs.GodambeRemainder Proofs.MatPerturb Proofs.MatNeumann Proofs.MatStats Proofs.MatLists Proofs.GodambeInverse Proofs.GodambeModelStats.
 Import ListNotations.
 Local Open Scope R_scope.
 
@@ -98,6 +98,80 @@ Theorem C19_godambe_bootstrap_order_irrelevant :
 Proof. exact (@godambe_perm). Qed.
 Print Assumptions C19_godambe_bootstrap_order_irrelevant.
 
+(** ** LRT_adjust / Wald_stat / score_stat do not depend on the order in which the nested parameters are listed.
+
+    [wald_stat], [score_stat], [lrt_adjust] are the statistics as functions of (H, J, cU) (Model/Godambe.v); the inverse they
+    use certifies itself ([mat_inv_v]: A Ai = Ai A = 1 is tested entry by entry), so nothing depends on how it was found.
+    Listing the n nested parameters in another order [perm] (a permutation of 0..n-1: new position a holds old position
+    perm[a]) re-lists rows and columns of H and J ([sub_mat perm]) and the entries of cU and of the parameter difference
+    ([select perm]); the statistics are unchanged.
+    Not proved: that the inverse is found for the re-listed matrix whenever it is found for the original one (completeness of the
+    elimination) -- both are hypotheses here, evaluated on every generated case. *)
+Theorem C19_wald_order_invariant :
+  forall n perm (Hm Jm : list (list R)) (d : list R) w w',
+  wfm n Hm -> wfm n Jm -> length d = n -> Permutation perm (seq 0 n) ->
+  wald_stat Hm Jm d = Some w -> wald_stat (sub_mat perm Hm) (sub_mat perm Jm) (select perm d) = Some w' -> w' = w.
+Proof. exact wald_order_invariant. Qed.
+Print Assumptions C19_wald_order_invariant.
+
+Theorem C19_score_order_invariant :
+  forall n perm (Hm Jm : list (list R)) (cU : list R) s s',
+  wfm n Hm -> wfm n Jm -> length cU = n -> Permutation perm (seq 0 n) ->
+  score_stat Hm Jm cU = Some s -> score_stat (sub_mat perm Hm) (sub_mat perm Jm) (select perm cU) = Some s' -> s' = s.
+Proof. exact score_order_invariant. Qed.
+
+Theorem C19_lrt_adjust_order_invariant :
+  forall n perm (Hm Jm : list (list R)) a a',
+  wfm n Hm -> wfm n Jm -> Permutation perm (seq 0 n) ->
+  lrt_adjust Hm Jm = Some a -> lrt_adjust (sub_mat perm Hm) (sub_mat perm Jm) = Some a' -> a' = a.
+Proof. exact lrt_order_invariant. Qed.
+
+(** the Godambe matrix itself is re-listed alike *)
+Theorem C19_gim_order_equivariant :
+  forall n perm (Hm Jm G G' : list (list R)),
+  wfm n Hm -> wfm n Jm -> Permutation perm (seq 0 n) ->
+  gim Hm Jm = Some G -> gim (sub_mat perm Hm) (sub_mat perm Jm) = Some G' -> G' = sub_mat perm G /\ wfm n G.
+Proof. exact gim_sub_mat. Qed.
+
+(** Wald_stat from the caller's lists ([wald_diff]: theta_opt appended for multinom=True, full_params reduced with the nested
+    indices when it has the length of p0, else taken as the values of the nested parameters): listing the nested indices in
+    another order -- and, where full_params holds just the nested values, those values in the same new order -- gives the
+    same (adjusted, unadjusted) statistics. *)
+Theorem C19_wald_nested_order_irrelevant :
+  forall n perm theta (p0 : list R) idx fp fp' (Hm Jm : list (list R)) d d' w w',
+  wfm n Hm -> wfm n Jm -> length idx = n -> Permutation perm (seq 0 n) ->
+  (length fp = length p0 /\ fp' = fp) \/ (length fp = n /\ n <> length p0 /\ n <> S (length p0) /\ fp' = select perm fp) ->
+  wald_diff theta p0 idx fp = Some d -> wald_stat Hm Jm d = Some w ->
+  wald_diff theta p0 (map (fun k => nth k idx 0%nat) perm) fp' = Some d' ->
+  wald_stat (sub_mat perm Hm) (sub_mat perm Jm) d' = Some w' -> w' = w.
+Proof. exact wald_nested_order_irrelevant. Qed.
+Print Assumptions C19_wald_nested_order_irrelevant.
+
+(** a nested index listed twice (the first listed index occurs again among the positions that receive a value): numpy's
+    indexed assignment lets the last value win, diff_func ignores the value at position 0, row 0 of H and of J vanishes and
+    neither has an inverse -- LRT_adjust, Wald_stat and score_stat have no value (the implementation raises LinAlgError) *)
+Theorem C19_repeated_nested_index_singular :
+  forall (Bs : list (list R)) aug (full : list R) i idx (data : @pdata R) (boots : list (@pdata R)) (p0 : list R) (eps : R),
+  In i (firstn (length p0 - 1) idx) -> (0 < length p0)%nat -> eps <> 0 -> boots <> [] ->
+  let HJc := godambe_HJc (fun dt => pois_ll (model_mean Bs aug (Some (full, i :: idx))) dt) p0 eps data boots in
+  (forall c, (c < length p0)%nat -> entry (fst (fst HJc)) 0 c = 0 /\ entry (snd (fst HJc)) 0 c = 0) /\
+  mat_inv_v (fst (fst HJc)) = None /\ mat_inv_v (snd (fst HJc)) = None.
+Proof. exact repeated_nested_index_singular. Qed.
+Print Assumptions C19_repeated_nested_index_singular.
+
+(** non-vacuity (exact rationals): three nested parameters [0; 2; 3] out of five, values [2; 5; 3], listed as [3; 0; 2] with
+    values [3; 2; 5]: same statistics; the values kept in the first order against matrices in the second: different *)
+Example C19_order_nonvacuous :
+  let Hm : list (list Q) := [[4; 1; 0]; [1; 3; 1]; [0; 1; 2]]%Q in let Jm : list (list Q) := [[2; 1; 0]; [1; 2; 0]; [0; 0; 1]]%Q in
+  let p0 : list Q := [1; 2; 3; 4; 5]%Q in let idx := [0; 2; 3]%nat in let vals : list Q := [2; 5; 3]%Q in let perm := [2; 0; 1]%nat in
+  let idx' := map (fun k => nth k idx 0%nat) perm in
+  idx' = [3; 0; 2]%nat /\ select perm vals = [3; 2; 5]%Q /\
+  (match wald_diff None p0 idx vals with Some d => wald_stat Hm Jm d | None => None end) = Some (24, 18)%Q /\
+  (match wald_diff None p0 idx' (select perm vals) with Some d => wald_stat (sub_mat perm Hm) (sub_mat perm Jm) d | None => None end) = Some (24, 18)%Q /\
+  (match wald_diff None p0 idx' (select perm vals) with Some d => wald_stat Hm Jm d | None => None end) = Some (149 # 3, 17)%Q /\
+  lrt_adjust Hm Jm = Some (18 # 11)%Q /\ lrt_adjust (sub_mat perm Hm) (sub_mat perm Jm) = Some (18 # 11)%Q.
+Proof. vm_compute. repeat split. Qed.
+
 (** Poisson model linear in its parameters, m_i = adj * sum_k theta_k B_i[k] > 0:
     d ll/d theta_k = sum_i (d_i/m_i - adj) B_i[k]   and   d2 ll/d theta_k d theta_l = - sum_i d_i B_i[k] B_i[l] / m_i^2.
     Full statement intended by the property (NOT proved):
@@ -183,7 +257,7 @@ Proof. exact share_bound_nonneg. Qed.
 
 (** H = - get_hess, J = mean of outer products of the bootstrap gradients, cU = mean gradient: each entry within
     (explicit constant) * eps^2 of the value obtained from the closed-form Hessian / score vectors.
-    (The inverse-matrix stage -- GIM = H J^-1 H, uncertainties, LRT adjustment, Wald, score -- is NOT covered.) *)
+    (The inverse-matrix stage -- GIM = H J^-1 H, uncertainties, LRT adjustment, Wald, score -- follows at the end of this file.) *)
 Theorem C19_poisson_godambe_HJc_within_eps2 :
   forall (Bs : list (list R)) (theta : list R) (rho : R) (data : @pdata R) (boots : list (@pdata R)) (eps : R),
   0 < pd_adj data -> List.Forall (fun bt => 0 < pd_adj bt) boots -> List.Forall (fun b => 0 < ndot theta b) Bs ->
@@ -222,3 +296,245 @@ Example C19_nonvacuous :
   get_hess (quadm 1 [(2, 0%nat); (3, 1%nat)] [(2, (0%nat, 0%nat)); (5, (0%nat, 1%nat)); (1, (1%nat, 1%nat))]) [1; 0] (1 / 100)
   = [[4; 5]; [5; 2]].
 Proof. exact godambe_example. Qed.
+
+(** ---- the inverse-matrix stage (GIM = H J^-1 H, uncertainties, LRT adjustment, Wald, score) ----
+    Matrices as functions nat -> nat -> R read on [0,n) x [0,n) ([meq n]); [mnorm n] = sum of |entries| (submultiplicative);
+    [is_inv n A B]: A B = 1 = B A on the square.  numpy.linalg.inv is an oracle: any two-sided inverse. *)
+Theorem C19_norm_submultiplicative :
+  forall n (A B : mat), mnorm n (mmul n A B) <= mnorm n A * mnorm n B.
+Proof. exact mnorm_mmul. Qed.
+
+(** B' - B = - B (A' - A) B';  |B'| <= |B| / (1 - |B||E|);  |B' - B| <= |B|^2 |E| / (1 - |B||E|) *)
+Theorem C19_inverse_perturbation :
+  forall n (A B A' B' : mat), is_inv n A B -> is_inv n A' B' ->
+  meq n (msub B' B) (mopp (mmul n (mmul n B (msub A' A)) B')) /\
+  (mnorm n B * mnorm n (msub A' A) < 1 ->
+   mnorm n B' <= mnorm n B / (1 - mnorm n B * mnorm n (msub A' A)) /\
+   mnorm n (msub B' B) <= mnorm n B * mnorm n B * mnorm n (msub A' A) / (1 - mnorm n B * mnorm n (msub A' A))).
+Proof.
+  exact (fun n A B A' B' HI HI' =>
+           conj (inv_perturb_identity n A B A' B' (proj2 HI) (proj1 HI'))
+                (inv_perturb_norm n A B A' B' (proj2 HI) (proj1 HI'))).
+Qed.
+Print Assumptions C19_inverse_perturbation.
+
+Theorem C19_product_perturbation :
+  forall n (A B A' B' : mat),
+  mnorm n (msub (mmul n A' B') (mmul n A B)) <= mnorm n (msub A' A) * mnorm n B' + mnorm n A * mnorm n (msub B' B).
+Proof. exact mmul_diff_norm. Qed.
+
+(** a perturbation with |B| |A' - A| < 1 of an invertible matrix is invertible (Neumann series): the theorems below need
+    invertibility of the closed-form matrices only *)
+Theorem C19_small_perturbation_invertible :
+  forall n (A B A' : mat), is_inv n A B -> mnorm n B * mnorm n (msub A' A) < 1 -> exists B', is_inv n A' B'.
+Proof. exact neumann_inverse. Qed.
+Print Assumptions C19_small_perturbation_invertible.
+
+(** entrywise form: every |H' i j - H i j| <= c e2 and n^2 c e2 |Hinv| <= 1/2  =>  every entry of H'inv within
+    2 |Hinv|^2 n^2 c e2 of Hinv *)
+Theorem C19_inverse_entries_within :
+  forall n (H Hi H' Hi' : mat) (c e2 : R),
+  is_inv n H Hi -> is_inv n H' Hi' ->
+  (forall i j, (i < n)%nat -> (j < n)%nat -> Rabs (H' i j - H i j) <= c * e2) ->
+  INR n * INR n * c * e2 * mnorm n Hi <= 1 / 2 ->
+  forall i j, (i < n)%nat -> (j < n)%nat ->
+    Rabs (Hi' i j - Hi i j) <= 2 * (mnorm n Hi * mnorm n Hi) * (INR n * INR n * c) * e2.
+Proof. exact fim_inverse_within_entries. Qed.
+
+Theorem C19_sqrt_perturbation :
+  forall a a' : R, 0 < a -> 0 <= a' -> Rabs (sqrt a' - sqrt a) <= Rabs (a' - a) / sqrt a.
+Proof. exact sqrt_diff_bound. Qed.
+
+(** FIM_uncert for Poisson models linear in their parameters (multinom=False): the standard deviations
+    sqrt(diag(inv(H))) from the finite-difference Hessian are within  K / sqrt((inv Hc)_ii) * eps^2  of those from the closed
+    form Hc = - pois_hess, K = 2 |inv Hc|^2 CH, CH = sum_ij 40 rho^2 pois_abs_hess i j; inv: ANY function returning an n x n
+    two-sided inverse whenever one exists.  inv(H') exists and its diagonal is positive (no nan). *)
+Theorem C19_poisson_FIM_uncert_within_eps2 :
+  forall (n : nat) (inv : list (list R) -> list (list R)),
+  (forall M, wf n M -> invertible n M -> wf n (inv M) /\ is_inv n (ent M) (ent (inv M))) ->
+  forall (Bs : list (list R)) (theta : list R) (rho : R) (data : @pdata R) (boots : list (@pdata R)) (eps : R),
+  length theta = n ->
+  0 < pd_adj data -> List.Forall (fun b => 0 < ndot theta b) Bs -> 0 < rho -> share_bound Bs theta rho ->
+  0 < eps -> eps <= / (8 * rho) -> eps <= 1 ->
+  (forall k, (k < length theta)%nat -> nth k theta 0 <> 0 /\ Rtiny <= nth k theta 0 * eps) ->
+  let H' := fst (fst (godambe_HJc (fun bt => pois_ll (lin_mean Bs) bt) theta eps data boots)) in
+  let Hc := pois_H_mat n Bs data theta in
+  let K := 2 * (mnorm n (ent (inv Hc)) * mnorm n (ent (inv Hc))) * CH_pois n rho Bs data theta in
+  invertible n Hc -> mnorm n (ent (inv Hc)) * (CH_pois n rho Bs data theta * (eps * eps)) <= 1 / 2 ->
+  invertible n H' /\
+  (forall i j, (i < n)%nat -> (j < n)%nat -> Rabs (ent (inv H') i j - ent (inv Hc) i j) <= K * (eps * eps)) /\
+  (forall i, (i < n)%nat -> K * (eps * eps) < ent (inv Hc) i i ->
+     0 < ent (inv H') i i /\
+     Rabs (uncert inv H' i - uncert inv Hc i) <= K / sqrt (ent (inv Hc) i i) * (eps * eps)).
+Proof. exact poisson_FIM_uncert_within_eps2. Qed.
+Print Assumptions C19_poisson_FIM_uncert_within_eps2.
+
+(** GIM_uncert: G = H inv(J) H ([gim_of]); |G' - Gc| <= KGIM eps^2 and the standard deviations sqrt(diag(inv(G))) *)
+Theorem C19_poisson_GIM_uncert_within_eps2 :
+  forall (n : nat) (inv : list (list R) -> list (list R)),
+  (forall M, wf n M -> invertible n M -> wf n (inv M) /\ is_inv n (ent M) (ent (inv M))) ->
+  forall (Bs : list (list R)) (theta : list R) (rho : R) (data : @pdata R) (boots : list (@pdata R)) (eps : R),
+  length theta = n ->
+  0 < pd_adj data -> List.Forall (fun bt => 0 < pd_adj bt) boots -> List.Forall (fun b => 0 < ndot theta b) Bs ->
+  0 < rho -> share_bound Bs theta rho -> boots <> [] ->
+  0 < eps -> eps <= / (8 * rho) -> eps <= 1 ->
+  (forall k, (k < length theta)%nat -> nth k theta 0 <> 0 /\ Rtiny <= nth k theta 0 * eps) ->
+  let HJc := godambe_HJc (fun bt => pois_ll (lin_mean Bs) bt) theta eps data boots in
+  let H' := fst (fst HJc) in let J' := snd (fst HJc) in
+  let Hc := pois_H_mat n Bs data theta in let Jc := pois_J_mat n Bs theta boots in
+  let G' := gim_of inv H' J' in let Gc := gim_of inv Hc Jc in
+  let KGIM := KG (mnorm n (ent Hc)) (mnorm n (ent (inv Jc))) (CH_pois n rho Bs data theta) (CJ_pois n rho Bs theta boots) in
+  let K := 2 * (mnorm n (ent (inv Gc)) * mnorm n (ent (inv Gc))) * KGIM in
+  invertible n Jc -> mnorm n (ent (inv Jc)) * (CJ_pois n rho Bs theta boots * (eps * eps)) <= 1 / 2 ->
+  invertible n Gc -> mnorm n (ent (inv Gc)) * (KGIM * (eps * eps)) <= 1 / 2 ->
+  invertible n J' /\ invertible n G' /\
+  mnorm n (msub (ent G') (ent Gc)) <= KGIM * (eps * eps) /\
+  (forall i j, (i < n)%nat -> (j < n)%nat -> Rabs (ent (inv G') i j - ent (inv Gc) i j) <= K * (eps * eps)) /\
+  (forall i, (i < n)%nat -> K * (eps * eps) < ent (inv Gc) i i ->
+     0 < ent (inv G') i i /\
+     Rabs (uncert inv G' i - uncert inv Gc i) <= K / sqrt (ent (inv Gc) i i) * (eps * eps)).
+Proof. exact poisson_GIM_uncert_within_eps2. Qed.
+Print Assumptions C19_poisson_GIM_uncert_within_eps2.
+
+(** LRT_adjust, Wald_stat, score_stat (every parameter nested, multinom=False) *)
+Theorem C19_poisson_LRT_Wald_score_within_eps2 :
+  forall (n : nat) (inv : list (list R) -> list (list R)),
+  (forall M, wf n M -> invertible n M -> wf n (inv M) /\ is_inv n (ent M) (ent (inv M))) ->
+  forall (Bs : list (list R)) (theta : list R) (rho : R) (data : @pdata R) (boots : list (@pdata R)) (eps : R),
+  length theta = n ->
+  0 < pd_adj data -> List.Forall (fun bt => 0 < pd_adj bt) boots -> List.Forall (fun b => 0 < ndot theta b) Bs ->
+  0 < rho -> share_bound Bs theta rho -> boots <> [] ->
+  0 < eps -> eps <= / (8 * rho) -> eps <= 1 ->
+  (forall k, (k < length theta)%nat -> nth k theta 0 <> 0 /\ Rtiny <= nth k theta 0 * eps) ->
+  let HJc := godambe_HJc (fun bt => pois_ll (lin_mean Bs) bt) theta eps data boots in
+  let H' := fst (fst HJc) in let J' := snd (fst HJc) in let cU' := snd HJc in
+  let Hc := pois_H_mat n Bs data theta in let Jc := pois_J_mat n Bs theta boots in let cUc := pois_cU_vec n Bs theta boots in
+  let CH := CH_pois n rho Bs data theta in let CJ := CJ_pois n rho Bs theta boots in let Cc := Cc_pois n rho Bs theta boots in
+  (forall k : R,
+   invertible n Hc -> mnorm n (ent (inv Hc)) * (CH * (eps * eps)) <= 1 / 2 ->
+   trace (mat_mul Jc (inv Hc)) <> 0 ->
+   KT (mnorm n (ent (inv Hc))) (mnorm n (ent Jc)) CH CJ * (eps * eps) <= Rabs (trace (mat_mul Jc (inv Hc))) / 2 ->
+   invertible n H' /\ trace (mat_mul J' (inv H')) <> 0 /\
+   Rabs (k / trace (mat_mul J' (inv H')) - k / trace (mat_mul Jc (inv Hc)))
+   <= 2 * Rabs k * KT (mnorm n (ent (inv Hc))) (mnorm n (ent Jc)) CH CJ
+      / (trace (mat_mul Jc (inv Hc)) * trace (mat_mul Jc (inv Hc))) * (eps * eps)) /\
+  (forall d : list R, length d = n ->
+   Rabs (qform H' d - qform Hc d) <= vnorm n (vec d) * vnorm n (vec d) * CH * (eps * eps) /\
+   (invertible n Jc -> mnorm n (ent (inv Jc)) * (CJ * (eps * eps)) <= 1 / 2 ->
+    Rabs (qform (gim_of inv H' J') d - qform (gim_of inv Hc Jc) d)
+    <= vnorm n (vec d) * vnorm n (vec d) * KG (mnorm n (ent Hc)) (mnorm n (ent (inv Jc))) CH CJ * (eps * eps))) /\
+  (invertible n Jc -> mnorm n (ent (inv Jc)) * (CJ * (eps * eps)) <= 1 / 2 ->
+   invertible n J' /\
+   Rabs (qform (inv J') cU' - qform (inv Jc) cUc) <= KG (vnorm n (vec cUc)) (mnorm n (ent (inv Jc))) Cc CJ * (eps * eps)) /\
+  (invertible n Hc -> mnorm n (ent (inv Hc)) * (CH * (eps * eps)) <= 1 / 2 ->
+   invertible n H' /\
+   Rabs (qform (inv H') cU' - qform (inv Hc) cUc) <= KG (vnorm n (vec cUc)) (mnorm n (ent (inv Hc))) Cc CH * (eps * eps)).
+Proof. exact poisson_LRT_Wald_score_within_eps2. Qed.
+Print Assumptions C19_poisson_LRT_Wald_score_within_eps2.
+
+(** the oracle contract is satisfiable (reciprocal; adjugate / determinant) *)
+Theorem C19_inv_contract_satisfiable :
+  (forall M, wf 1 M -> invertible 1 M -> wf 1 (inv1 M) /\ is_inv 1 (ent M) (ent (inv1 M))) /\
+  (forall M, wf 2 M -> invertible 2 M -> wf 2 (inv2 M) /\ is_inv 2 (ent M) (ent (inv2 M))).
+Proof. exact (conj inv1_spec inv2_spec). Qed.
+
+(** the same for the model's own executable statistics (var_of, gim, lrt_adjust, wald_stat, score_stat use mat_inv_v:
+    Gauss-Jordan accepted only with the certificate A Ai = Ai A = 1); no oracle *)
+Theorem C19_mat_inv_v_certificate :
+  forall n (A Ai : list (list R)), length A = n -> mat_inv_v A = Some Ai -> wf n A /\ wf n Ai /\ is_inv n (ent A) (ent Ai).
+Proof. exact mat_inv_v_spec. Qed.
+
+Theorem C19_poisson_model_FIM_within_eps2 :
+  forall (Bs : list (list R)) (theta : list R) (rho : R) (data : @pdata R) (boots : list (@pdata R)) (eps : R),
+  0 < pd_adj data -> List.Forall (fun b => 0 < ndot theta b) Bs -> 0 < rho -> share_bound Bs theta rho ->
+  0 < eps -> eps <= / (8 * rho) -> eps <= 1 ->
+  (forall k, (k < length theta)%nat -> nth k theta 0 <> 0 /\ Rtiny <= nth k theta 0 * eps) ->
+  let n := length theta in
+  let H' := fst (fst (godambe_HJc (fun bt => pois_ll (lin_mean Bs) bt) theta eps data boots)) in
+  let Hc := pois_H_mat n Bs data theta in
+  forall Hi Hi', mat_inv_v Hc = Some Hi -> mat_inv_v H' = Some Hi' ->
+  let K := 2 * (mnorm n (ent Hi) * mnorm n (ent Hi)) * CH_pois n rho Bs data theta in
+  mnorm n (ent Hi) * (CH_pois n rho Bs data theta * (eps * eps)) <= 1 / 2 ->
+  var_of Hc = Some (diag Hi) /\ var_of H' = Some (diag Hi') /\
+  forall i, (i < n)%nat -> K * (eps * eps) < nth i (diag Hi) 0 ->
+    0 < nth i (diag Hi') 0 /\
+    Rabs (sqrt (nth i (diag Hi') 0) - sqrt (nth i (diag Hi) 0)) <= K / sqrt (nth i (diag Hi) 0) * (eps * eps).
+Proof. exact poisson_model_FIM_within_eps2. Qed.
+Print Assumptions C19_poisson_model_FIM_within_eps2.
+
+Theorem C19_poisson_model_GIM_within_eps2 :
+  forall (Bs : list (list R)) (theta : list R) (rho : R) (data : @pdata R) (boots : list (@pdata R)) (eps : R),
+  0 < pd_adj data -> List.Forall (fun bt => 0 < pd_adj bt) boots -> List.Forall (fun b => 0 < ndot theta b) Bs ->
+  0 < rho -> share_bound Bs theta rho -> boots <> [] ->
+  0 < eps -> eps <= / (8 * rho) -> eps <= 1 ->
+  (forall k, (k < length theta)%nat -> nth k theta 0 <> 0 /\ Rtiny <= nth k theta 0 * eps) ->
+  let n := length theta in
+  let HJc := godambe_HJc (fun bt => pois_ll (lin_mean Bs) bt) theta eps data boots in
+  let H' := fst (fst HJc) in let J' := snd (fst HJc) in
+  let Hc := pois_H_mat n Bs data theta in let Jc := pois_J_mat n Bs theta boots in
+  forall Ji Ji' G G' Gi Gi',
+  mat_inv_v Jc = Some Ji -> mat_inv_v J' = Some Ji' ->
+  gim Hc Jc = Some G -> gim H' J' = Some G' ->
+  mat_inv_v G = Some Gi -> mat_inv_v G' = Some Gi' ->
+  let KGIM := KG (mnorm n (ent Hc)) (mnorm n (ent Ji)) (CH_pois n rho Bs data theta) (CJ_pois n rho Bs theta boots) in
+  let K := 2 * (mnorm n (ent Gi) * mnorm n (ent Gi)) * KGIM in
+  mnorm n (ent Ji) * (CJ_pois n rho Bs theta boots * (eps * eps)) <= 1 / 2 ->
+  mnorm n (ent Gi) * (KGIM * (eps * eps)) <= 1 / 2 ->
+  var_of G = Some (diag Gi) /\ var_of G' = Some (diag Gi') /\
+  mnorm n (msub (ent G') (ent G)) <= KGIM * (eps * eps) /\
+  forall i, (i < n)%nat -> K * (eps * eps) < nth i (diag Gi) 0 ->
+    0 < nth i (diag Gi') 0 /\
+    Rabs (sqrt (nth i (diag Gi') 0) - sqrt (nth i (diag Gi) 0)) <= K / sqrt (nth i (diag Gi) 0) * (eps * eps).
+Proof. exact poisson_model_GIM_within_eps2. Qed.
+Print Assumptions C19_poisson_model_GIM_within_eps2.
+
+Theorem C19_poisson_model_LRT_Wald_score_within_eps2 :
+  forall (Bs : list (list R)) (theta : list R) (rho : R) (data : @pdata R) (boots : list (@pdata R)) (eps : R),
+  0 < pd_adj data -> List.Forall (fun bt => 0 < pd_adj bt) boots -> List.Forall (fun b => 0 < ndot theta b) Bs ->
+  0 < rho -> share_bound Bs theta rho -> boots <> [] ->
+  0 < eps -> eps <= / (8 * rho) -> eps <= 1 ->
+  (forall k, (k < length theta)%nat -> nth k theta 0 <> 0 /\ Rtiny <= nth k theta 0 * eps) ->
+  let n := length theta in
+  let HJc := godambe_HJc (fun bt => pois_ll (lin_mean Bs) bt) theta eps data boots in
+  let H' := fst (fst HJc) in let J' := snd (fst HJc) in let cU' := snd HJc in
+  let Hc := pois_H_mat n Bs data theta in let Jc := pois_J_mat n Bs theta boots in let cUc := pois_cU_vec n Bs theta boots in
+  let CH := CH_pois n rho Bs data theta in let CJ := CJ_pois n rho Bs theta boots in let Cc := Cc_pois n rho Bs theta boots in
+  forall Hi Hi' Ji Ji',
+  mat_inv_v Hc = Some Hi -> mat_inv_v H' = Some Hi' -> mat_inv_v Jc = Some Ji -> mat_inv_v J' = Some Ji' ->
+  mnorm n (ent Hi) * (CH * (eps * eps)) <= 1 / 2 -> mnorm n (ent Ji) * (CJ * (eps * eps)) <= 1 / 2 ->
+  (let t := trace (mat_mul Jc Hi) in let KLRT := KT (mnorm n (ent Hi)) (mnorm n (ent Jc)) CH CJ in
+   t <> 0 -> KLRT * (eps * eps) <= Rabs t / 2 ->
+   exists a a', lrt_adjust Hc Jc = Some a /\ lrt_adjust H' J' = Some a' /\
+     Rabs (a' - a) <= 2 * Rabs (IZR (Z.of_nat n)) * KLRT / (t * t) * (eps * eps)) /\
+  (forall d : list R, length d = n ->
+   exists w w', wald_stat Hc Jc d = Some w /\ wald_stat H' J' d = Some w' /\
+     Rabs (fst w' - fst w) <= vnorm n (vec d) * vnorm n (vec d) * KG (mnorm n (ent Hc)) (mnorm n (ent Ji)) CH CJ * (eps * eps) /\
+     Rabs (snd w' - snd w) <= vnorm n (vec d) * vnorm n (vec d) * CH * (eps * eps)) /\
+  (exists s s', score_stat Hc Jc cUc = Some s /\ score_stat H' J' cU' = Some s' /\
+     Rabs (fst s' - fst s) <= KG (vnorm n (vec cUc)) (mnorm n (ent Ji)) Cc CJ * (eps * eps) /\
+     Rabs (snd s' - snd s) <= KG (vnorm n (vec cUc)) (mnorm n (ent Hi)) Cc CH * (eps * eps)).
+Proof. exact poisson_model_LRT_Wald_score_within_eps2. Qed.
+Print Assumptions C19_poisson_model_LRT_Wald_score_within_eps2.
+
+(** non-vacuity: 2 x 2 matrices meeting the hypotheses of the perturbation theorem; the final theorems on a one-parameter
+    model (theta = 1, B = (1), d = 4, eps = 1/100) with the reciprocal as oracle / with the model's mat_inv_v *)
+Example C19_inverse_perturbation_nonvacuous :
+  let A := m2 2 1 1 1 in let B := m2 1 (-1) (-1) 2 in
+  let A' := m2 (2 + 1 / 100) 1 1 1 in let B' := m2 (100 / 101) (- 100 / 101) (- 100 / 101) (201 / 101) in
+  is_inv 2 A B /\ is_inv 2 A' B' /\ mnorm 2 B = 5 /\ mnorm 2 (msub A' A) = 1 / 100 /\
+  mnorm 2 B * mnorm 2 (msub A' A) <= 1 / 2 /\
+  mnorm 2 (msub B' B) <= 2 * (mnorm 2 B * mnorm 2 B) * (1 / 100).
+Proof. exact inv_perturb_nonvacuous. Qed.
+
+Example C19_poisson_FIM_uncert_nonvacuous :
+  let Bs := [[1]] in let dt := {| pd_adj := 1; pd_d := [4]; pd_g := [0] |} in
+  let H' := fst (fst (godambe_HJc (fun bt => pois_ll (lin_mean Bs) bt) [1] (1 / 100) dt [])) in
+  0 < ent (inv1 H') 0%nat 0%nat /\ Rabs (uncert inv1 H' 0%nat - 1 / 2) <= 4 / 1000.
+Proof. exact poisson_FIM_uncert_nonvacuous. Qed.
+
+Example C19_poisson_model_FIM_nonvacuous :
+  let Bs := [[1]] in let dt := {| pd_adj := 1; pd_d := [4]; pd_g := [0] |} in
+  let H' := fst (fst (godambe_HJc (fun bt => pois_ll (lin_mean Bs) bt) [1] (1 / 100) dt [])) in
+  exists v v', var_of (pois_H_mat 1 Bs dt [1]) = Some v /\ var_of H' = Some v' /\ nth 0 v 0 = 1 / 4 /\
+    0 < nth 0 v' 0 /\ Rabs (sqrt (nth 0 v' 0) - 1 / 2) <= 4 / 1000.
+Proof. exact poisson_model_FIM_nonvacuous. Qed.
